@@ -114,7 +114,28 @@ def families(seed, tier):
                                                           await_("X", "up"), await_("Y", "up"), open_("Y"), op("pump", ms=200), val("Y", acc),
                                                           op("pump", ms=200), policy("X", "accept"), policy("Y", "accept"),
                                                           op("settle", quiet=300, ms=3000), open_("Y"), await_("Y", "answered")])
-        # dialing on demand / dialing disabled
+        # a validation left unanswered across TWO cut / redial cycles (ValidationPending must follow the connection state),
+    # with and without a late answer, then a third connection and opens from both sides
+    def redial():
+        return [op("cut"), await_("X", "down"), await_("Y", "down"), op("dial"), await_("X", "up"), await_("Y", "up"), op("pump", ms=60)]
+
+    def third(answer):
+        late = [val("Y", answer, wait=0), op("pump", ms=150)] if answer else []
+        return ([op("cut"), await_("X", "down"), await_("Y", "down")] + late +
+                [op("dial"), await_("X", "up"), await_("Y", "up"), op("settle", quiet=200, ms=2000), policy("X", "accept"), policy("Y", "accept"),
+                 open_("X"), op("pump", ms=200), open_("Y"), await_("X", "answered", ms=4000), await_("Y", "answered", ms=4000), op("pump", ms=200)])
+    for i, answer in enumerate(("accept", "reject", None, "accept") if tier == "quick" else ("accept", "reject", None) * 4):
+        add("validation-pending-twice", cfg(0, perturb=i % 3, auto=(("X",) if i % 2 else ())),
+            [open_("X"), await_("Y", "asked")] + redial() + third(answer), bys=(i == 0))
+        # ... three cycles, the answer arrives while the third connection is up
+        add("validation-pending-thrice", cfg(0, perturb=(i + 1) % 3),
+            [open_("X"), await_("Y", "asked")] + redial() + redial() + ([val("Y", answer, wait=0)] if answer else []) + third(None))
+    # variant: the remote's first attempt times out (10 s) while the user is still thinking, it opens a second substream
+    # (ValidationPending with the connection up), then the connection drops and comes back
+    for i, answer in enumerate(("accept", None) if tier == "quick" else ("accept", "reject", None, "accept")):
+        add("second-inbound-while-validating", cfg(0, perturb=i % 3),
+            [open_("X"), await_("Y", "asked"), await_("X", "answered", ms=15000), open_("X"), op("pump", ms=400)] + third(answer))
+    # dialing on demand / dialing disabled
         add("dial-on-open", cfg(0, dial=True, perturb=1), [policy("X", "accept"), policy("Y", "accept"), op("cut"), await_("X", "down"), await_("Y", "down"),
                                                            open_("X"), await_("X", "open", ms=10000)])
         add("nodial-open", cfg(0, dial=False, perturb=1), [op("cut"), await_("X", "down"), await_("Y", "down"), open_("X"), await_("X", "answered"),
@@ -159,13 +180,31 @@ def random_script(rng, idx, seed):
             mx=rng.choice([64, 256, 1024]), perturb=rng.choice([0, 1, 2, 2]), bystander=rng.random() < 0.3)
     steps = []
     pols = ["accept", "accept", "accept", "manual", "reject"]
-    for e in EPS:
-        steps.append(policy(e, rng.choice(pols)))
+    # profile "churn" (1 in 5): one side never answers validations on its own, the link is cut and redialled repeatedly
+    churn = rng.random() < 0.2
+    if churn:
+        lazy = rng.choice(EPS)
+        steps += [policy(lazy, "manual"), policy(other(lazy), rng.choice(["accept", "manual"])), open_(other(lazy)),
+                  await_(lazy, "asked", ms=1500)]
+    else:
+        for e in EPS:
+            steps.append(policy(e, rng.choice(pols)))
     cutdone = False
     for _ in range(rng.randint(6, 26)):
         r = rng.random()
         e = rng.choice(EPS)
-        if r < 0.22:
+        if churn and r < 0.45:
+            q = rng.random()
+            if q < 0.55:
+                steps += [op("cut"), await_("X", "down", ms=3000), await_("Y", "down", ms=3000), op("pump", ms=rng.choice([0, 30, 200])),
+                          op("dial"), await_("X", "up", ms=4000), await_("Y", "up", ms=4000), op("pump", ms=rng.choice([20, 100]))]
+            elif q < 0.7:
+                steps.append(val(lazy, rng.choice(["accept", "accept", "reject"]), wait=0))
+            elif q < 0.85:
+                steps.append(open_(rng.choice(EPS)))
+            else:
+                steps.append(op("pump", ms=rng.choice([20, 150])))
+        elif r < 0.22:
             steps.append(open_(e))
             if rng.random() < 0.3:
                 steps.append(open_(other(e)))
@@ -195,6 +234,9 @@ def random_script(rng, idx, seed):
                     steps += [op("pump", ms=rng.choice([0, 50, 400])), op("dial"), await_("X", "up", ms=4000), await_("Y", "up", ms=4000)]
         else:
             steps.append(send(e, "s", 3, "over" if rng.random() < 0.5 else "max"))
+    if churn:
+        steps += [op("settle", quiet=200, ms=2000), policy("X", "accept"), policy("Y", "accept"), open_("X"), op("pump", ms=200), open_("Y"),
+                  op("pump", ms=400)]
     if c["bystander"]:
         steps += serve_check()
     steps.append(op("quiesce"))
@@ -230,6 +272,9 @@ def script_from_behaviour(b, idx, seed, consts, paced):
             continue
         if paced:
             steps.append(op("pump", ms=40))
+    if any(s["a"] == "reconnect" for s in b):
+        # does the protocol still serve the peer on the latest connection?
+        steps += [op("settle", quiet=200, ms=2000), open_("X"), op("pump", ms=200), open_("Y"), op("pump", ms=400)]
     steps.append(op("quiesce"))
     c = cfg(seed * 100000 + 50000 + idx, auto=sorted(consts.get("AutoSet", [])), dial=consts.get("Dial", False),
             perturb=(idx % 3), tq_ms=60000)
